@@ -3,6 +3,7 @@ package main
 import (
 	"fmt"
 	"go/ast"
+	"go/token"
 	"go/types"
 	"sort"
 	"strings"
@@ -338,11 +339,25 @@ func c07R3(p *Prog, r *Report) {
 		ast.Inspect(fi.Decl, func(n ast.Node) bool {
 			as, isAs := n.(*ast.AssignStmt)
 			if isAs && len(as.Lhs) == 1 && exprString(as.Lhs[0]) == "args" {
-				// args = append([]jen.Code{errStmt}, args...)
+				// (a) args = append([]jen.Code{errStmt}, args...)  — prepend
 				if call, isC := ast.Unparen(as.Rhs[0]).(*ast.CallExpr); isC && len(call.Args) == 2 {
 					if cl, isCl := ast.Unparen(call.Args[0]).(*ast.CompositeLit); isCl && len(cl.Elts) == 1 && isParamIdent(info, fi, cl.Elts[0], 1) {
 						ok = true
 					}
+				}
+				// (b) args := []jen.Code{errStmt} followed only by appends at the end
+				if cl, isCl := ast.Unparen(as.Rhs[0]).(*ast.CompositeLit); isCl && as.Tok == token.DEFINE && len(cl.Elts) >= 1 && isParamIdent(info, fi, cl.Elts[0], 1) {
+					ok = true
+					ast.Inspect(fi.Decl, func(m ast.Node) bool {
+						a2, isA2 := m.(*ast.AssignStmt)
+						if isA2 && a2 != as && len(a2.Lhs) == 1 && exprString(a2.Lhs[0]) == "args" {
+							c2, isC2 := ast.Unparen(a2.Rhs[0]).(*ast.CallExpr)
+							if !isC2 || len(c2.Args) < 1 || exprString(c2.Args[0]) != "args" {
+								ok = false
+							}
+						}
+						return true
+					})
 				}
 			}
 			return true
